@@ -12,7 +12,7 @@ META = {
         "discipline in the 30-day producer): sell-time quantity = min(remaining, available ÷ ratio); buy-time quantity = that × "
         "ratio; Match.quantity and `remaining −=` take the sell-time term, the future claim and the cost take the buy-time term. "
         "R4 (variant coverage): every function that walks the transaction slice, reads both Buy.amount and Sell.amount and keeps "
-        "per-lot share counts across dates must also read Split.ratio and Unsplit.ratio. Does not compare with a rescaled ledger. R6: a function that re-writes the size of an acquisition lot re-writes every share counter booked against it too (a lot is restated whole or not at all). R7: every SPLIT/UNSPLIT line of a day is applied (shared with C01-R2). R8: some update of the look-ahead's ratio is reachable for lines dated on the sale's own date (known finding: every update lies behind days ≥ 1, so a sale-day SPLIT is ignored)."),
+        "per-lot share counts across dates must also read Split.ratio and Unsplit.ratio. Does not compare with a rescaled ledger. R6: a function that re-writes the size of an acquisition lot re-writes every share counter booked against it too (a lot is restated whole or not at all). R7: every SPLIT/UNSPLIT line of a day is applied (shared with C01-R2). R8: some update of the look-ahead's ratio is reachable for lines dated on the sale's own date (known finding: every update lies behind days ≥ 1, so a sale-day SPLIT is ignored). R7 also (shared with C01-R2): within one date the SPLIT/UNSPLIT pass strictly follows the pooling of that date's purchases — applied line by line, a SPLIT written above a same-day BUY rescales the pool without that purchase (seeded changes C10-s9, C02-s9, C05-s9)."),
     "trusted_base": ["rust_decimal arithmetic", "rustc MIR + resolution"],
 }
 
@@ -293,6 +293,21 @@ def run(ctx, rep):
     # every SPLIT/UNSPLIT line of a day is applied (shared with C01-R2 / C09-R8)
     import rules.c01 as c01
     c01.every_line_of_day(R, rep, "R7", only=("apply splits",))
+    # a date's SPLIT/UNSPLIT lines are applied AFTER every purchase of that date has been pooled, as a separate pass: applied line by
+    # line in file order, a SPLIT written above a same-day BUY rescales the pool without that purchase, the ledger no longer equals
+    # its post-split twin and the result depends on the order of the two lines (shared with C01-R2; seeded changes C10-s9, C02-s9, C05-s9)
+    phase_order(R, rep, "R7")
+
+
+def phase_order(R, rep, rule, pairs=(("pool unmatched acquisitions", "apply splits"),)):
+    import rules.c01 as c01
+    from core import Report
+    r2 = Report("tmp")
+    c01.dayloop_order(R, r2)
+    for o in r2.obligations:
+        if (not o["ok"] and o["instance"].startswith("role:")) or pairs is None \
+                or any(o["instance"] == f"dayloop:{a} ≺ {b}" for a, b in pairs):
+            rep.ob(rule, o["instance"], o["ok"], o["detail"], o["site"], key=rule + ":" + o["instance"])
 
 
 def lookahead_ratio_dates(R, rep, rule_sale_day="R8", rule_same_day=None):
